@@ -621,6 +621,11 @@ class simulation_model():
 
         mymemo = self.memo[equation]
 
+        # t-dt chains drift in binary floating point (0.4-0.1-0.1-0.1-0.1 = 2.8e-17, not 0): bring the time
+        # back onto the decimal grid, otherwise a stock takes an extra integration step before it reaches starttime
+        if isinstance(arg, float):
+            arg = round(arg, 10)
+
         if arg in mymemo.keys():
             return mymemo[arg]
         else:
